@@ -32,7 +32,7 @@ var stdCode = map[string]int{"space": 32, "exclam": 33, "A": 65, "B": 66, "C": 6
 	"period": 46, "comma": 44, "hyphen": 45, "grave": 193, "acute": 194}
 
 func hardString(rng *rand.Rand) string {
-	special := []byte{'(', ')', '\\', '\r', '\n', 0, '%', 200, 255, ' ', 'a', '/', '{', '<'}
+	special := []byte{'(', ')', '\\', '\r', '\n', 0, '%', 200, 255, ' ', 'a', '/', '{', '<', '\f', '\t', 'x', 127}
 	n := rng.Intn(12)
 	b := make([]byte, n)
 	for i := range b {
@@ -191,6 +191,14 @@ func Generate(rng *rand.Rand, o Opts) *type1.Font {
 		if rng.Intn(3) == 0 {
 			a := funit.Int16(rng.Intn(300))
 			g.VStem = []funit.Int16{a, a + 40, a + 200, a + 260}
+		}
+		switch rng.Intn(10) {
+		case 0: // ghost stems: the width is negative (Type 1 book, section 6.2: -20 and -21)
+			g.HStem = []funit.Int16{21, 0, 700, 680}
+			g.VStem = []funit.Int16{520, 500}
+		case 1: // a stem wider than 32767 units: the width does not fit into 16 bits
+			g.HStem = []funit.Int16{-20000, 20000}
+			g.VStem = []funit.Int16{-32768, 32767, 100, 200}
 		}
 		f.Glyphs[name] = g
 	}
